@@ -313,6 +313,11 @@ func (w *World) procOne(b *BackendConn) {
 	if idx < 0 {
 		faulty = false
 	}
+	if faulty && f.Kind == "status" && (req.Op == mcfake.OpNoop || req.Op == mcfake.OpVersion || req.Op == mcfake.OpQuit) {
+		// memcached has no way to refuse these: the planned refusal does not happen
+		delete(t.Faults, idx)
+		faulty = false
+	}
 	if faulty {
 		delete(t.Faults, idx)
 		w.Stat.FaultsFired[f.Kind]++
